@@ -200,39 +200,23 @@ pub fn run_block(p: &mut JPair, c: &BlockCase, scope: Scope) -> Result<RunInfo, 
         p.tcache.clear();
     }
     p.b.trace_enable(true);
-    // The translator ends a block at the boundary of the 16 KiB region it starts
-    // in; the interpreter runs on to the terminator. For a block that runs
-    // through 0x4000 the translated side therefore takes two hops.
-    let split: Option<u16> = if crosses {
-        instr_starts(&c.code).iter().map(|s| c.pc as usize + s).find(|a| *a >= 0x4000).map(|a| a as u16)
-    } else {
-        None
-    };
+    // Both engines end a block at the boundary of the 16 KiB ROM region it starts
+    // in; a block that runs through 0x4000 is compared up to that boundary.
     let rb = {
         let b = &mut p.b;
         let tc = &mut p.tcache;
         guarded(|| {
-            let mut pc = c.pc;
-            let mut hops = 0;
-            loop {
-                let key = (pc, c.code.clone());
-                let off = match tc.get(&key) {
-                    Some(off) => *off,
-                    None => {
-                        let off = b.translate(pc as usize);
-                        tc.insert(key, off);
-                        off
-                    }
-                };
-                let status = b.call(off);
-                hops += 1;
-                let now = b.regs().pc as u16;
-                if hops == 1 && status_class(status) == 0 && Some(now) == split {
-                    pc = now;
-                    continue;
+            let pc = c.pc;
+            let key = (pc, c.code.clone());
+            let off = match tc.get(&key) {
+                Some(off) => *off,
+                None => {
+                    let off = b.translate(pc as usize);
+                    tc.insert(key, off);
+                    off
                 }
-                return status;
-            }
+            };
+            b.call(off)
         })
     };
     p.b.trace_enable(false);
